@@ -67,7 +67,8 @@ func runPromFanout(c *core.Ctx) {
 				continue
 			}
 			c.CountSites(1)
-			count[strings.TrimPrefix(rp, "recv.")]++
+			// (the hook may be promoted from a struct the counter embeds: recv.<counter>.<embedded>)
+			count[strings.SplitN(strings.TrimPrefix(rp, "recv."), ".", 2)[0]]++
 			// same ctx / msg: arguments are this hook's own parameters in order; for hooks
 			// after Start the context is the one carrying the request id
 			for i, a := range call.Call.Args[1:] {
